@@ -63,7 +63,7 @@ def main():
     churn = {repr(b["h"]): b["h"] for b in simc.json_lines() if isinstance(b, dict)}
     ctx.cov["five_write_sequences_with_element_churn"] = len(churn)
     AK = ["list", "tuple", "gen", "iter"]
-    cases = [{"h": h, "ak": AK[i % 4]} for i, h in enumerate(behs)] + [{"h": h, "ak": AK[i % 4]} for i, h in enumerate(deep.values())]
+    cases = [{"h": h, "ak": AK[i % 4], "falsy": i % 5 == 1} for i, h in enumerate(behs)] + [{"h": h, "ak": AK[i % 4]} for i, h in enumerate(deep.values())]
     cases += [{"h": h, "ak": "list", "churn": True} for h in churn.values()]
     results = replay("writes", cases)
     ctx.replayed = len(cases)
@@ -78,7 +78,7 @@ def main():
             pr = judge(m, o)
             if pr and bad is None:
                 bad = {"step": k, "op": m["op"], "problems": pr, "observed": o}
-        key = [c["ak"] + ("+churn" if c.get("churn") else "")] + [s["op"] for s in c["h"]]
+        key = [c["ak"] + ("+churn" if c.get("churn") else "") + ("+falsy" if c.get("falsy") else "")] + [s["op"] for s in c["h"]]
         ctx.case(key, nontrivial, sample={"writes": key, "final_list": c["h"][-1]["lst"], "final_set": c["h"][-1]["st"]})
         if bad:
             ctx.violation({"writes": key, **bad}, note="field contents or recorded relations differ from Python semantics + inference")
